@@ -117,6 +117,36 @@ def check_run(ctx, env, props, label_suffix=""):
         nonneg = z3.And(*[_t(a) >= 0 for a in hist.log_norm_ratio_var]) if K else z3.BoolVal(True)
         ctx.prove(z3.Implies(nonneg, z3.And(e >= 0, e * e == ev2)), "c08/error_is_root_sum_var" + sfx)
 
+    # ---- C09 (loop level) -------------------------------------------------------
+    if "C09" in props:
+        rng = env.rng
+        n_res = K + (1 if cfg.get("n_final") else 0)
+        ok = ctx.prove(
+            len(rng.p_seen) == n_res and len(rng.idx_seen) == n_res and len(env.kernel_inputs) == n_res,
+            "c09/one_draw_per_step" + sfx,
+            detail={"weighted_draws": len(rng.p_seen), "kernel_calls": len(env.kernel_inputs), "resampling_steps": n_res},
+        )
+        for t in range(n_res if ok else 0):
+            src = pops[min(t, K)]
+            b0, b1 = betas[min(t, K)], (betas[t + 1] if t < K else 1.0)
+            M = N if t < K else N + 1
+            om = omegas(pop_w(fns, src), b0, b1)
+            s1 = z3.Sum(om)
+            pv = sx.terms(rng.p_seen[t])
+            d = {"step": t, "final_stage": t >= K}
+            if ctx.prove(len(pv) == len(om), "c09/prob_len" + sfx, detail=d):
+                for i in range(len(om)):
+                    ctx.prove(pv[i] * s1 == om[i], "c09/prob_proportional" + sfx, detail={**d, "row": i})
+            idx = sx.terms(rng.idx_seen[t])
+            z = env.kernel_inputs[t][0]
+            if not ctx.prove(len(idx) == M and z.shape[0] == M, "c09/size" + sfx, detail={**d, "drawn": len(idx), "moved": z.shape[0], "requested": M}):
+                continue
+            X = [sx.terms(src.x[j]) for j in range(src.x.shape[0])]
+            for k in range(M):
+                zk = sx.terms(z[k])
+                for j in range(len(X)):
+                    ctx.prove(z3.Implies(idx[k] == j, z3.And(*[a == b for a, b in zip(zk, X[j])])), "c09/row_copy" + sfx, detail={**d, "row": k})
+
     # ---- C10 ------------------------------------------------------------------
     if "C10" in props:
         for t, p in enumerate(pops):
